@@ -227,8 +227,54 @@ def check_with_raw(out, pieces):
             first = (v, st)
         if not [x for x in v if x['code'] != 'attr-amp']:
             return v, st, True
+    if first is not None:
+        # none of the first residues is accepted: the enumeration above varies the LAST pieces
+        # first and gives up after a fixed number of residues, which is not enough for a long
+        # document in which an early piece (say '</a>') also occurs in genuine output.  Search
+        # systematically, pruning on the prefix.
+        hit = _search(out, [p for p in pieces if p])
+        if hit is not None:
+            return hit[0], hit[1], True
     if first is None:
         v, st = check(out)
         return ([{'code': 'raw-piece-not-found', 'pos': 0, 'tag': None, 'attr': None,
                   'near': repr(pieces)[:80]}] + v), st, False
     return first[0], first[1], True
+
+
+def _hard(v, prefix=False):
+    skip = ('attr-amp', 'unclosed') if prefix else ('attr-amp',)
+    return [x for x in v if x['code'] not in skip]
+
+
+def _search(out, pieces, budget=4000):
+    """Depth-first search for an assignment of the pieces to occurrences (in order, not
+    overlapping) whose residue the monitor accepts.  A candidate occurrence is only followed when
+    the residue *up to it* is accepted as a prefix (nothing but still-open tags); because the scan
+    stops at the first violation, a bad prefix stays bad for every later occurrence of the same
+    piece, so that branch is cut.  A piece starts where complete genuine output ends (raw HTML is
+    never inside a tag of the renderer), hence cutting the output there is sound.
+    -> (violations, stats) of an accepted residue, or None."""
+    count = [0]
+
+    def rec(i, start, acc):
+        if i == len(pieces):
+            v, st = check(acc + out[start:])
+            return (v, st) if not _hard(v) else None
+        p = pieces[i]
+        k = out.find(p, start)
+        while k != -1:
+            count[0] += 1
+            if count[0] > budget:
+                return None
+            pref = acc + out[start:k]
+            v, _st = check(pref)
+            if _hard(v, prefix=True):
+                return None
+            r = rec(i + 1, k + len(p), pref + PLACEHOLDER)
+            if r is not None:
+                return r
+            k = out.find(p, k + 1)
+        return None
+
+    return rec(0, 0, '')
